@@ -38,5 +38,5 @@ static __attribute__((noinline)) void do_case(unsigned i) {
 extern "C" void harness_c01() {
   unsigned sel = v_nondet_u32();
   v_assume(sel < NCASES);
-  dispatch<CaseW, NCASES>(sel);
+  dispatch<Case, NCASES>(sel);   // (no per-case completion witnesses here: each costs a SAT call on a 4M-variable formula)
 }
